@@ -9,7 +9,7 @@ From BV Require Import Base.Prelude Model.Block Model.ForkDB Model.Forkable Mode
   Model.CursorResolver Model.Joining
   Spec.Consumer Spec.Universe Check.Fk_Check Check.Burst_Check Check.C07_Check
   Spec.C09_Spec Spec.C05_Spec Spec.C06_Spec Spec.C07_Spec Spec.C13_Spec Spec.C07_Compose_Spec Spec.C07_Shapes_Spec Spec.C07_More_Spec
-  Spec.C07_Final_Spec
+  Spec.C07_Final_Spec Spec.C13_More_Spec
   Spec.C01_Spec Spec.C01_Moving_Spec Spec.C01_Roots_Spec
   Proofs.C06_Lists Proofs.C06_Proofs Proofs.C13_Proofs
   Proofs.C09_Store Proofs.C09_Segment Proofs.C09_Proofs Proofs.C05_Fast Proofs.C05_Forked
@@ -498,7 +498,7 @@ Section FinalCur.
 
   (* the files: nothing (the cursor block is not in them), or the merged blocks after L as new+irreversible *)
   Lemma fc_files :
-    from_cursor_run merged forked cu stopf (j_bundle c) = ([], RsOk) \/
+    (from_cursor_run merged forked cu stopf (j_bundle c) = ([], RsOk) /\ mend <= bnum L) \/
     (from_cursor_run merged forked cu stopf (j_bundle c) = (map fev rest', RsOk) /\
      lnk (bid L) rest' /\ (forall b, In b rest' -> In b merged) /\ bnum L < merged_end).
   Proof.
@@ -522,7 +522,7 @@ Section FinalCur.
       - destruct (c06_delivery_segment_proof merged lib stopf (j_bundle c) Hmok) as [_ HDok]. fold D in HDok. rewrite HD' in HDok.
         destruct (lnk_of_chain_ok _ HDok) as [x Hx]. cbn [lnk] in Hx. split; [apply Hx|]. split; [|apply N.ltb_lt in ELm; unfold mend in ELm; lia].
         intros b Hb. assert (H : In b D) by (rewrite HD'; right; exact Hb). unfold D, file_delivery in H. apply filter_In in H as [H _]. exact H. }
-    left. unfold from_cursor_run. fold lib. fold D. unfold D. rewrite fc_HD. cbn [filter]. rewrite ELm.
+    left. split; [|apply N.ltb_ge; exact ELm]. unfold from_cursor_run. fold lib. fold D. unfold D. rewrite fc_HD. cbn [filter]. rewrite ELm.
     rewrite (C06_Lists.filter_none _ _ rest); [reflexivity|].
     apply N.ltb_ge in ELm. eapply Forall_impl; [|exact fc_rest_above]. cbn beta. intros y Hy. apply N.ltb_ge. lia.
   Qed.
@@ -659,12 +659,12 @@ Section FinalCur.
       destruct (h_ready (w_hub w)) eqn:Hrd; cbn [negb] in Hlt; [|discriminate].
       rewrite Hseen in Hro. apply (Hraw _ _ Hro). exact (fc_live burst k Hrd Hlt).
     - rewrite Hr. split; [reflexivity | discriminate].
-    - destruct fc_files as [Enone|(Erun & Hlr & Hrm & HLm)].
+    - destruct fc_files as [[Enone HLge]|(Erun & Hlr & Hrm & HLm)].
       { rewrite Enone in Ef. cbn [fst] in Ef. destruct pre; discriminate. }
       rewrite Erun in Ef. cbn [fst] in Ef.
       apply map_eq_app in Ef as (Dpre & D2 & ED & Epre & E2). apply map_eq_cons in E2 as (bn & D' & ED2 & Ebn & _).
       subst pre e D2. rewrite Hseen in Hro. apply (Hraw _ _ Hro). exact (fc_join m Dpre bn D' lowest burst k Hlr Hrm ED Hj).
-    - rewrite Hseen in Hfo. destruct fc_files as [Enone|(Erun & Hlr & Hrm & HLm)].
+    - rewrite Hseen in Hfo. destruct fc_files as [[Enone HLge]|(Erun & Hlr & Hrm & HLm)].
       + rewrite Enone in Hfo. cbn [fst snd undup] in Hfo.
         assert (E : fst res = []).
         { destruct Hfo as [[_ Hr]|[Hs _]]; [rewrite Hr; reflexivity | discriminate]. }
@@ -685,6 +685,107 @@ Section FinalCur.
           unfold above, merged. rewrite !filter_filter'. apply filter_ext_in. intros b Hb.
           rewrite (fc_mend_all HLm Hn b Hb). apply andb_comm.
   Qed.
+  (* ---------------------------------------------------------------- with a stop block: the run that ends with stop-block-reached *)
+
+  Lemma seg_from_id lo hi (l0 : list block) : from_num lo (seg_num lo hi l0) = seg_num lo hi l0.
+  Proof.
+    unfold from_num, seg_num. rewrite filter_filter'. apply filter_ext_in. intros b _.
+    destruct (lo <=? bnum b), (bnum b <=? hi); reflexivity.
+  Qed.
+
+  Lemma cur_final_stop bS :
+    In bS canon -> bnum bS = j_stop c -> lib < j_stop c -> snd res = JStop ->
+    exists pre e, fst res = pre ++ [e] /\ eblk e = bS /\ map eblk (fst res) = seg_num (lib + 1) (j_stop c) canon.
+  Proof.
+    intros HbS HnS Hsc Hstop.
+    pose proof (c07_run_shapes_proof c w ps merged_end merged forked) as Hsh. cbv zeta in Hsh.
+    rewrite fc_run_files in Hsh. cbn [fst snd] in Hsh. fold res in Hsh.
+    assert (Hseen : forall X, seen c X = undup c (Some (bnum L)) X) by (intros X; rewrite (seen_final c X Hfilter), fc_mem; reflexivity).
+    (* from the cut of the blocks to the statement *)
+    assert (Hcut : forall X X' Bd hi, (exists Xt, X' = X ++ Xt) ->
+              records (Some (bnum L)) (map eblk (filter irr_ev X')) = Bd -> Bd = seg_num (lib + 1) hi canon ->
+              snd (upto_stop c (undup c (Some (bnum L)) X)) = true -> fst res = fst (upto_stop c (undup c (Some (bnum L)) X)) ->
+              exists pre e, fst res = pre ++ [e] /\ eblk e = bS /\ map eblk (fst res) = seg_num (lib + 1) (j_stop c) canon).
+    { intros X X' Bd hi HX' EBd EBd2 Hs Hf.
+      destruct (final_cut_ext c canon (lib + 1) (Some (bnum L)) X X' Bd hi (fst res) bS Hfilter HX' EBd) as (pre & e & E1 & E2 & E3 & Y2 & EY); try assumption.
+      - rewrite <- EBd. apply records_sorted.
+      - rewrite EBd2. apply seg_from_id.
+      - intros _. lia.
+      - exists pre, e. split; [exact E1|]. split; [exact E2|]. rewrite <- E3. symmetry.
+        unfold from_num. apply C06_Lists.filter_all.
+        destruct (undup_sorted c X (Some (bnum L))) as (_ & _ & Hab). rewrite EY in Hab. apply Forall_app in Hab as [Hab _].
+        apply Forall_forall. intros b Hb. apply in_map_iff in Hb as (x & <- & Hx). rewrite Forall_forall in Hab. specialize (Hab x Hx).
+        apply N.leb_le. rewrite ELn in Hab. lia. }
+    assert (Hraw : forall X X' (P : Prop), (exists Xt, X' = X ++ Xt) -> raw_out c (undup c (Some (bnum L)) X) res P ->
+              cshape (map eblk (filter irr_ev X')) True ->
+              exists pre e, fst res = pre ++ [e] /\ eblk e = bS /\ map eblk (fst res) = seg_num (lib + 1) (j_stop c) canon).
+    { intros X X' P HX' Hro (Bd & EBd & _ & Hcompl).
+      unfold raw_out in Hro. rewrite Hstop in Hro. destruct Hro as (Hs & Hf).
+      destruct (Hcompl I) as (hi & _ & EBd2). rewrite ELn in EBd2.
+      exact (Hcut X X' Bd hi HX' EBd EBd2 Hs Hf). }
+    assert (Hweak : forall raw (P : Prop), P -> cshape raw P -> cshape raw True).
+    { intros raw P HP (Bd & E & Hl & Hfn). exists Bd. split; [exact E|]. split; [exact Hl | intros _; exact (Hfn HP)]. }
+    assert (Hdone : forall w0 k, w_rest (world_after c (k + length (w_rest (world_after c k w0))) w0) = []).
+    { intros w0 k. rewrite <- world_after_add. apply length_zero_iff_nil. rewrite world_after_rest. lia. }
+    assert (Hpadd : forall a b w0, pushed c (a + b) w0 = pushed c a w0 ++ pushed c b (world_after c a w0)).
+    { intros a b w0. unfold pushed, world_after. rewrite push_n_add. reflexivity. }
+    destruct Hsh as [[_ Hr]|[Hrej [(burst & k & Hlt & Hro)|[[_ Hr]|[Hlt [(pre & e & rest0 & m & lowest & burst & k & Ef & Hns & Hj & Hro)|Hfo]]]]]].
+    - rewrite Hr in Hstop. discriminate.
+    - unfold live_try in Hlt. rewrite Hmode, Hcur in Hlt. cbn [N.eqb Pos.eqb] in Hlt.
+      destruct (h_ready (w_hub w)) eqn:Hrd; cbn [negb] in Hlt; [|discriminate].
+      rewrite Hseen in Hro. set (r := length (w_rest (world_after c k w))).
+      apply (Hraw (burst ++ pushed c k w) (burst ++ pushed c (k + r) w) (w_rest (world_after c k w) = [])); [| exact Hro|].
+      + exists (pushed c r (world_after c k w)). rewrite Hpadd, app_assoc. reflexivity.
+      + exact (Hweak _ _ (Hdone w k) (fc_live burst (k + r) Hrd Hlt)).
+    - rewrite Hr in Hstop. discriminate.
+    - destruct fc_files as [[Enone _]|(Erun & Hlr & Hrm & HLm)].
+      { rewrite Enone in Ef. cbn [fst] in Ef. destruct pre; discriminate. }
+      rewrite Erun in Ef. cbn [fst] in Ef.
+      apply map_eq_app in Ef as (Dpre & D2 & ED & Epre & E2). apply map_eq_cons in E2 as (bn & D' & ED2 & Ebn & _).
+      subst pre e D2. rewrite Hseen in Hro.
+      set (wm := world_after c m w) in *. set (r := length (w_rest (world_after c k wm))).
+      apply (Hraw (map fev Dpre ++ burst ++ pushed c k wm) (map fev Dpre ++ burst ++ pushed c (k + r) wm) (w_rest (world_after c k wm) = [])); [| exact Hro|].
+      + exists (pushed c r (world_after c k wm)). rewrite Hpadd, <- !app_assoc. reflexivity.
+      + exact (Hweak _ _ (Hdone wm k) (fc_join m Dpre bn D' lowest burst (k + r) Hlr Hrm ED Hj)).
+    - (* files only *)
+      rewrite Hseen in Hfo.
+      assert (HbSrest : In bS rest).
+      { rewrite <- (above_of_from_num canon lib L rest Hasc Hfrom ELn). unfold above. apply filter_In. split; [exact HbS | apply N.ltb_lt; lia]. }
+      (* when the file source reports the bundle of S, block S is among the files read *)
+      assert (Hmark : fend0 = JStop -> bnum L < mend /\ In bS rest').
+      { intros Hfe. destruct (file_end_stop c merged_end Hfe) as [E0 Hble].
+        assert (Estopf : stopf = j_stop c) by (unfold stopf; apply N.eqb_neq in E0; rewrite E0; reflexivity).
+        pose proof (N.mul_succ_div_gt (j_stop c) (j_bundle c)) as Hdiv. rewrite <- N.add_1_r in Hdiv.
+        assert (HSm : j_stop c < mend) by (unfold mend, bound; rewrite Estopf; nia).
+        split; [rewrite ELn; lia|]. unfold rest'. apply filter_In. split; [exact HbSrest | apply N.ltb_lt; lia]. }
+      destruct fc_files as [[Enone HLge]|(Erun & Hlr & Hrm & HLm)].
+      + rewrite Enone in Hfo. cbn [fst snd undup] in Hfo. exfalso.
+        destruct Hfo as [[_ Hr]|[Hs _]]; [|discriminate]. fold res in Hr. rewrite Hr in Hstop. cbn [snd] in Hstop.
+        destruct (Hmark Hstop) as [H _]. lia.
+      + rewrite Erun in Hfo. cbn [fst snd] in Hfo.
+        pose proof (fc_rest'_U Hlr Hrm) as HrU.
+        assert (Erec : records (Some (bnum L)) (map eblk (filter irr_ev (map fev rest'))) = rest').
+        { rewrite (C06_Lists.filter_all _ _ (map fev rest')), map_eblk_fev.
+          - apply records_above; [exact (under_L_above U canon L U_id U_uniq U_up HcU fc_HLc rest' Hlr HrU)|].
+            exact (lnk_sorted U U_id U_uniq U_up rest' (bid L) Hlr HrU).
+          - apply Forall_forall. intros e He. apply in_map_iff in He as (b & <- & _). reflexivity. }
+        assert (EYb : map eblk (undup c (Some (bnum L)) (map fev rest')) = rest') by (rewrite (undup_blocks c Hfilter _ (Some (bnum L))); exact Erec).
+        destruct (undup_sorted c (map fev rest') (Some (bnum L))) as (Hp & _ & _).
+        destruct Hfo as [[Hns Hr]|[Hs Hr]]; fold res in Hr.
+        * exfalso. rewrite Hr in Hstop. cbn [snd] in Hstop. destruct (Hmark Hstop) as [_ HbSr].
+          destruct (file_end_stop c merged_end Hstop) as [E0 _].
+          rewrite <- EYb in HbSr. apply in_map_iff in HbSr as (x & Ex & Hx).
+          pose proof (upto_stop_nostop c _ Hns) as Hall. rewrite Forall_forall in Hall, Hp.
+          pose proof (stops_false_pass c x (Hall _ Hx) (Hp x Hx) E0) as Hlt'. unfold enum in Hlt'. rewrite Ex in Hlt'. lia.
+        * assert (Hf : fst res = fst (upto_stop c (undup c (Some (bnum L)) (map fev rest')))) by (rewrite Hr; reflexivity).
+          destruct (upto_stop_split c _ Hs) as (Y1 & e & Y2 & EYs & _ & _ & _).
+          assert (Her : In (eblk e) rest') by (rewrite <- EYb, EYs; apply in_map; apply in_or_app; right; left; reflexivity).
+          assert (Hem : bnum (eblk e) < mend) by (unfold rest' in Her; apply filter_In in Her as [_ H]; apply N.ltb_lt; exact H).
+          apply (Hcut (map fev rest') (map fev rest') rest' (mend - 1)); [exists []; rewrite app_nil_r; reflexivity | exact Erec | | exact Hs | exact Hf].
+          unfold rest'. rewrite <- (above_of_from_num canon lib L rest Hasc Hfrom ELn). unfold above, seg_num. rewrite filter_filter'.
+          apply filter_ext_in. intros b _.
+          destruct (N.ltb_spec lib (bnum b)), (N.ltb_spec (bnum b) mend), (N.leb_spec (lib + 1) (bnum b)), (N.leb_spec (bnum b) (mend - 1)); cbn [andb]; try reflexivity; lia.
+  Qed.
 End FinalCur.
 
 Lemma c07_seamless_cursor_final_proof : C07_seamless_cursor_final_full.
@@ -698,4 +799,18 @@ Proof.
   { split; [|exact Hrest]. rewrite Hhub. apply (hub_ok_run U (j_first c) (j_kept c) Hwfb Hlok l Hl). }
   exact (cur_final U c w ps merged_end canon forked cu L rest Hid Huniq Hup Hdecl Hchain Hincl HW Htip Hmode Hcur Hfilter Hbundle Hbound
            Hfin Hfrom HL HLb).
+Qed.
+
+(* the stop clause for final blocks only, cursor mode (Spec/C13_More_Spec.v) *)
+Lemma c13_stop_final_cursor_proof : C13_stop_final_cursor.
+Proof.
+  intros U c w ps merged_end canon forked cu L rest Hwfb Hlok [[l [Hl Hhub]] Hrest] Hchain Hincl merged Htip
+         Hmode Hcur Hfilter Hbundle Hbound Hfin Hfrom HL HLb res bS HbS HnS Hsc Hstop.
+  assert (Hscope : disc_scope2_b U = true) by (unfold disc_scope2_b; rewrite Hwfb, Hlok; reflexivity).
+  pose proof (bridge_id U Hwfb) as Hid. pose proof (bridge_uniq U Hwfb) as Huniq. pose proof (bridge_up U Hwfb) as Hup.
+  pose proof (bridge2_decl_none U Hscope) as Hdecl.
+  assert (HW : WOK U c w).
+  { split; [|exact Hrest]. rewrite Hhub. apply (hub_ok_run U (j_first c) (j_kept c) Hwfb Hlok l Hl). }
+  exact (cur_final_stop U c w ps merged_end canon forked cu L rest Hid Huniq Hup Hdecl Hchain Hincl HW Htip Hmode Hcur Hfilter Hbundle
+           Hfin Hfrom HL HLb bS HbS HnS Hsc Hstop).
 Qed.
